@@ -134,6 +134,17 @@ pub trait Adapter<V: Vdaf> {
     fn layout(&self, kind: Kind, agg: usize, round: u8, ap: &ApSpec) -> Vec<Region>;
     /// build an output share of a wrong length from raw element bytes (for refusal checks)
     fn wrong_len_output(&self, bytes: &[u8], ap: &ApSpec, other_level: bool) -> Option<V::OutputShare>;
+    /// Byzantine client by wire rewrites (Poplar1): edit the honest report in place and label,
+    /// per aggregation parameter, what re-evaluation with the real code shows
+    #[allow(clippy::too_many_arguments)]
+    fn byz_rewrite(&self, _vdaf: &V, _ctx: &[u8], _nonce: &[u8; 16], _meas: &[N], _public: &mut Vec<u8>, _inputs: &mut Vec<Vec<u8>>, _edits: &[crate::world_a::ByzEdit], _aps: &[ApSpec]) -> Vec<crate::world_a::ByzLabel> {
+        Vec::new()
+    }
+    /// is a single alteration at `site` guaranteed to make verification of a job with aggregation
+    /// parameter `ap` fail (strict oracle)? Default: yes.
+    fn strict_applies(&self, _site: &crate::world_a::Site, _ap: &ApSpec, _meas: &[N]) -> bool {
+        true
+    }
     /// another instance of the SAME Rust type with other parameters (for cross-instance misuse)
     fn same_type_instance(&self, _other: &Inst) -> Option<V> {
         None
